@@ -131,7 +131,7 @@ def _flag_is_identity(chk, src):
                f"under different names", where=fcr.where, instance="shared end points", how="PE of _create and header_name")
 
 
-def _couplings_nf(chk, src):
+def _couplings_nf(chk, src, rule="segment-couplings-in-the-segment-flavour-number", methods=("compute_a", "compute_aem_list")):
     """Every coupling a segment asks for is requested in the segment's OWN flavour number: at a matching scale the couplings of
     the two adjacent patches differ (from NNLO, or with matching ratios / scale variations from NLO), and the default flavour
     number of the coupling object switches exactly there, so a request without nf jumps for a target on the matching scale."""
@@ -140,7 +140,7 @@ def _couplings_nf(chk, src):
 
     ocls = src.cls("eko.evolution_operator.Operator")
     n = 0
-    for meth in ("compute_a", "compute_aem_list"):
+    for meth in methods:
         f = ocls.methods[meth]
         for thr, qed, scheme in itertools.product((False, True), (False, True), (None, "exponentiated", "expanded")):
             pe = PE(src)
@@ -172,14 +172,14 @@ def _couplings_nf(chk, src):
                     del asked[:]
                 pe.apply(pe.getattr(o, meth), [], {})
             except PERaise as e:
-                chk.fail("segment-couplings-in-the-segment-flavour-number", f.qname, f"{inst}: raises {e}", where=f.where, instance=inst)
+                chk.fail(rule, f.qname, f"{inst}: raises {e}", where=f.where, instance=inst)
                 continue
             if not asked:
                 continue   # nothing requested in this configuration (e.g. no QED: the list is built from the end-point values)
             n += 1
             bad = [(k, str(s_), nf_) for k, s_, nf_ in asked if nf_ != 4]
-            chk.decide(not bad, "segment-couplings-in-the-segment-flavour-number", f.qname,
+            chk.decide(not bad, rule, f.qname,
                        f"{inst}: couplings requested as {bad[:3]} for a segment with nf=4: without the segment's flavour number the coupling object "
                        f"takes its default for the scale, which switches exactly on a matching scale - the operator of a target on that scale "
                        f"then jumps with respect to its neighbours in the same patch", where=f.where, instance=inst, how="PE with a recording coupling object")
-    chk.floor("coupling requests of a segment", n, 12)
+    chk.floor("coupling requests of a segment", n, 6 * len(methods))
